@@ -17,15 +17,17 @@ import (
 // Bounded stand-ins (labelled bounded, never counted as proved): an in-package test run through
 // `go test -overlay` against the real code, for the part of a property no contract within reach decides.
 type boundedSpec struct {
-	Property    string `json:"property"`
-	Name        string `json:"name"`
-	Pkg         string `json:"pkg"`
-	TestFile    string `json:"test_file"`
-	Run         string `json:"run"`
-	QuickN      int    `json:"quick_n"`
-	ThoroughN   int    `json:"thorough_n"`
-	Bound       string `json:"bound"`
-	StandsInFor string `json:"stands_in_for"`
+	Property    string            `json:"property"`
+	Name        string            `json:"name"`
+	Pkg         string            `json:"pkg"`
+	TestFile    string            `json:"test_file"`
+	Run         string            `json:"run"`
+	QuickN      int               `json:"quick_n"`
+	ThoroughN   int               `json:"thorough_n"`
+	Bound       string            `json:"bound"`
+	StandsInFor string            `json:"stands_in_for"`
+	Env         map[string]string `json:"env"`
+	Function    string            `json:"function"`
 }
 
 type boundedResult struct {
@@ -82,6 +84,9 @@ func runBounded(s boundedSpec, tier string, seed int, scratch string) boundedRes
 	cmd := exec.CommandContext(ctx, "bash", "-c", fmt.Sprintf("cd %q && go test -tags verif -overlay %q -vet=off -count=1 -timeout %s -run '^%s$' -v .", dir, ovf, timeout, s.Run))
 	cmd.Env = append(os.Environ(), "GOFLAGS=-mod=mod", "GOPROXY=off", "GOSUMDB=off", "GOTOOLCHAIN=local",
 		"GOVC_BOUNDED_N="+strconv.Itoa(n), "VERIF_SEED="+strconv.Itoa(seed))
+	for k, v := range s.Env {
+		cmd.Env = append(cmd.Env, k+"="+v)
+	}
 	var out bytes.Buffer
 	cmd.Stdout = &out
 	cmd.Stderr = &out
